@@ -1,0 +1,17 @@
+//go:build verif
+
+package string_helper
+
+// Contracts for the verification framework in /verif (comment-only file, build tag `verif`).
+
+// trim(v): v without its group prefix "<group>/" (specification function, SMT-LIB strings)
+//@ pred HasGroup(v string) := strings.IndexRune(v, '/') >= 0
+//@ specfn trim(v string) string := ite(strings.IndexRune(v, '/') >= 0, v[strings.IndexRune(v, '/')+1:], v)
+
+// C15: a version with or without its group is the same version; TrimGroup is the projection.
+//@ func TrimGroup
+//@   prop C15
+//@   opt theory=strings
+//@   modifies nothing
+//@   ensures [is-trim] result == trim(apiVersion)
+//@   ensures [suffix]  strings.HasSuffix(apiVersion, result)
